@@ -1,9 +1,12 @@
 import Walrus.Proofs.Body
+import Walrus.Proofs.ParseTree
+import Walrus.Proofs.ParseView
 import Walrus.Code
 
 /-!
 # C03 — every instruction survives the round trip with exact opcode and immediates
-(first stage: emission side proved; parse side carried by exact-prediction correspondence)
+(emission side and parse side proved on the model: parse ∘ emit of any well-nested body is the
+flattening of the tree computed from the source; the model is tied to the code by exact prediction)
 -/
 namespace Walrus
 namespace C03
@@ -109,6 +112,98 @@ example : (roundTripCode ⟨[([], []), (["i32"], ["i32"])], 0,
   = some ([1, 0], [[⟨"LocalGet", [.ref "x" 0]⟩, ⟨"Block", [.bt .empty]⟩, ⟨"Br", [.ref "l" 0]⟩, ⟨"End", []⟩, ⟨"I32Const", [.num 1]⟩,
                     ⟨"If", [.bt .empty]⟩, ⟨"Else", []⟩, ⟨"End", []⟩, ⟨"Drop", []⟩, ⟨"End", []⟩],
                    [⟨"Call", [.ref "f" 0]⟩, ⟨"End", []⟩]]) := by decide
+
+
+/-! ## parse side: the control stack of `LocalFunction::parse` -/
+
+/-- **the parse-time control stack computes the recursive description**: for every well-nested body
+    (any nesting of block / loop / if / if-else, dead code, nops, branches), running
+    `append_instruction` over the flat operator stream yields exactly the arena that `expL` computes
+    from the source tree — the entry sequence with the surviving instructions, then every sequence
+    in allocation order with its final content and end location -/
+theorem parse_computes_the_recursive_description (e : PEnv) (entryTy : Nat) (body : PL) (hw : body.WF)
+    (endLoc : Nat) (is : List (BInstr × Nat)) (cs : List PSeq) (u : Bool)
+    (h : expL e [0] 1 false body = some (is, cs, u)) :
+    buildBody e entryTy (body.flat ++ [(opEnd, endLoc)]) = some (⟨.multi entryTy, is, endLoc⟩ :: cs) :=
+  buildBody_eq e entryTy body hw endLoc is cs u h
+
+/-- in that description: nothing is appended to a frame that is unreachable (dead code is dropped) … -/
+theorem dead_code_is_dropped (e : PEnv) (ids : List Nat) (o : Op) (loc : Nat) (is : List (BInstr × Nat)) (u : Bool)
+    (h : leafEffect e ids true o loc = some (is, u)) : is = [] := by
+  unfold leafEffect at h
+  simp only [if_true] at h
+  split at h
+  · split at h
+    · simp only [Option.map_eq_some_iff] at h
+      obtain ⟨_, _, h⟩ := h; injection h with h1 _; exact h1.symm
+    · cases h
+  · split at h
+    · split at h
+      · simp only [Option.map_eq_some_iff] at h
+        obtain ⟨_, _, h⟩ := h; injection h with h1 _; exact h1.symm
+      · cases h
+    · split at h
+      · split at h
+        · split at h
+          · injection h with h; injection h with h1 _; exact h1.symm
+          · cases h
+        · cases h
+      · split at h
+        · injection h with h; injection h with h1 _; exact h1.symm
+        · split at h
+          · injection h with h; injection h with h1 _; exact h1.symm
+          · simp only [Option.map_eq_some_iff] at h
+            obtain ⟨_, _, h⟩ := h; injection h with h1 _; exact h1.symm
+
+/-- … a `nop` appends nothing and changes nothing … -/
+theorem nop_is_dropped (e : PEnv) (ids : List Nat) (unr : Bool) (o : Op) (loc : Nat) (hn : o.name = "Nop") :
+    leafEffect e ids unr o loc = some ([], unr) := by
+  simp [leafEffect, hn]
+
+/-- … `return` and `unreachable` make the rest of the sequence unreachable (as do `br`, `br_table`) … -/
+theorem transfer_ends_the_sequence (e : PEnv) (ids : List Nat) (unr : Bool) (o : Op) (loc : Nat)
+    (hn : o.name = "Return" ∨ o.name = "Unreachable") :
+    leafEffect e ids unr o loc = some (if unr then [] else [(.leaf o, loc)], true) := by
+  rcases hn with h | h <;> simp [leafEffect, h]
+
+/-- … and every other operator of a reachable frame is kept, once, with its own name and its
+    immediates, entity operands replaced by ids (memarg offsets modulo 2^32: finding D5) -/
+theorem plain_operator_is_kept_exactly (e : PEnv) (ids : List Nat) (o : Op) (loc : Nat) (a : List Arg)
+    (h1 : o.name ≠ "Br") (h2 : o.name ≠ "BrIf") (h3 : o.name ≠ "BrTable") (h4 : o.name ≠ "Return")
+    (h5 : o.name ≠ "Unreachable") (h6 : o.name ≠ "Nop") (ha : pMapArgs e (wrapOffsets o.args) = some a) :
+    leafEffect e ids false o loc = some ([(.leaf ⟨o.name, a⟩, loc)], false) := by
+  simp [leafEffect, h1, h2, h3, h4, h5, h6, ha]
+
+/-- **parse followed by emit, on the model, for every well-nested body**: the emitted operator
+    sequence is the structural flattening (block structure, block types, branch depths, every
+    surviving operator with name and immediates, entity operands through the two maps) of the tree
+    `treeL` computes from the *source*: nops and dead code gone, everything else in place -/
+theorem body_round_trip_is_flatten_of_source_tree (m : IdMaps) (e : PEnv) (entryTy : Nat) (body : PL)
+    (hw : body.WF) (endLoc : Nat) (is : List (BInstr × Nat)) (cs : List PSeq) (u : Bool)
+    (h : expL e [0] 1 false body = some (is, cs, u))
+    (t : TL LSeqTy LInstr) (ht : treeL e [0] 1 false body = some t)
+    (ops : List (Nat × Op)) (hf : flattenL m [0] t = some ops) :
+    ∃ seqs, buildBody e entryTy (body.flat ++ [(opEnd, endLoc)]) = some seqs ∧
+      ∃ n, ∀ fuel, n ≤ fuel → (emitBodyFuel m (PSeqs.toArena seqs) fuel 0).map (·.1) =
+        some (ops.map (·.2) ++ [⟨"End", []⟩]) := by
+  obtain ⟨seqs, t', hb, ht', hg, hv⟩ := parsed_body_has_tree_view e entryTy body hw endLoc is cs u h
+  rw [ht] at ht'
+  injection ht' with ht'
+  subst ht'
+  exact ⟨seqs, hb, emitted_body_is_flatten m seqs 0 _ t hg hv ops hf⟩
+
+-- non-vacuity: a body with a nop, a branch out of a block followed by dead code containing a block
+def sampleBody : PL :=
+  .cons (.op ⟨"Nop", []⟩ 1)
+  (.cons (.blk ⟨"Block", [.bt .empty]⟩ 2
+      (.cons (.op ⟨"Br", [.ref "l" 0]⟩ 3)
+       (.cons (.blk ⟨"Block", [.bt .empty]⟩ 4 (.cons (.op ⟨"I32Const", [.num 7]⟩ 5) .nil) 6)
+        (.cons (.op ⟨"Drop", []⟩ 7) .nil))) 8)
+  (.cons (.op ⟨"I32Const", [.num 1]⟩ 9) .nil))
+def sampleEnv : PEnv := ⟨[], [], [], []⟩
+example : (expL sampleEnv [0] 1 false sampleBody).map (fun r => (r.1, r.2.1.map (·.instrs), r.2.2)) =
+    some ([(.block 1, 2), (.leaf ⟨"I32Const", [.num 1]⟩, 9)],
+          [[(.br 1, 3)], [(.leaf ⟨"I32Const", [.num 7]⟩, 5)]], false) := by decide
 
 end C03
 end Walrus
